@@ -121,6 +121,8 @@ fn run_c14(out: &mut Out, tier: &str, rng: &mut Rng) {
     for clients in [2usize, 4] {
         c15::via_server(out, clients);
     }
+    // ... also after the server has once had as many sessions as it is meant for (16), all gone again
+    c15::via_server_late(out, 16, 2);
     hs::run(out, tier, rng);
     out.rule.push_str("; client half: every ClientBuilder option combination over a Unix socket and over TCP and the four convenience functions against a stub daemon that records flags and name");
 }
@@ -153,6 +155,7 @@ fn run_c05(out: &mut Out, tier: &str, rng: &mut Rng) {
     for clients in [2usize, 3] {
         c15::via_server(out, clients);
     }
+    c15::via_server_late(out, 16, 1);
     out.rule.push_str("; bursts of 1..64 well-formed frames through the real session, command channel and command task of 1-2 networks; 2 and 3 clients connected at once through the real UnixServer");
 }
 
